@@ -136,7 +136,9 @@ def describe_common(what: str) -> dict:
             "(seam event in the output dir) x (applicable errno, plus partial writes) "
             "exhaustively for the small common models; 'sample' items draw single and double "
             "faults, state faults (directory where a file is needed, file where a directory is "
-            "needed, stale longer files) and benign short-write runs; one evaluation = one faulted run. distinct = distinct "
+            "needed, stale longer files), unusual directory layouts (output dir beneath / equal "
+            "to the snippets dir, beneath the model dir, absent and nested, a symlink) and "
+            "benign short-write runs; one evaluation = one faulted run. distinct = distinct "
             "(target, operation kind, errno/fault kind, outcome class) combinations exercised "
             "with a fault that actually fired. " + what
         ),
@@ -214,7 +216,12 @@ def execute_common(plan: dict, judge: str) -> dict:
             mix = plan.get("mix", "single+double")
             for _ in range(int(plan["n"])):
                 r = rng.random()
-                if "state" in mix and r < 0.4 and ref_names:
+                if "state" in mix and r < 0.15 and not big:
+                    # unusual but legal directory layouts: only the contract is judged
+                    faults.append([{"fault": "layout", "kind": rng.choice(
+                        ["out_beneath_snippets", "out_is_snippets", "out_absent_nested",
+                         "out_is_symlink", "out_beneath_model_dir"])}])
+                elif "state" in mix and r < 0.4 and ref_names:
                     kind = rng.choice(["dir_at_file", "file_at_dir", "stale_longer"])
                     faults.append([{"fault": "state", "kind": kind, "path": rng.choice(ref_names)}])
                 elif "benign" in mix and r < 0.55:
@@ -238,8 +245,30 @@ def execute_common(plan: dict, judge: str) -> dict:
             sim_faults = []
             label = []
             expect_identical = False
+            run_sdir = sdir
             for flt in fault_set:
-                if flt["fault"] == "state":
+                if flt["fault"] == "layout":
+                    import shutil as _shutil
+
+                    os.rmdir(out_dir)
+                    if flt["kind"] in ("out_beneath_snippets", "out_is_snippets"):
+                        run_sdir = sb.path("snippets", f"layout{n_f}")
+                        _shutil.copytree(sdir, run_sdir)
+                        out_dir = (run_sdir if flt["kind"] == "out_is_snippets"
+                                   else os.path.join(run_sdir, "generated", "code"))
+                        if flt["kind"] == "out_beneath_snippets":
+                            os.makedirs(out_dir)
+                    elif flt["kind"] == "out_absent_nested":
+                        out_dir = sb.path("out", f"f{n_f}", "does", "not", "exist yet")
+                    elif flt["kind"] == "out_is_symlink":
+                        real_dir = sb.path("out", f"real{n_f}")
+                        os.makedirs(real_dir)
+                        os.symlink(real_dir, out_dir)
+                    elif flt["kind"] == "out_beneath_model_dir":
+                        out_dir = sb.path("models", f"gen{n_f}")
+                        os.makedirs(out_dir)
+                    label.append(f"layout:{flt['kind']}")
+                elif flt["fault"] == "state":
                     p = os.path.join(out_dir, flt["path"])
                     if flt["kind"] == "dir_at_file":
                         os.makedirs(p)
@@ -277,7 +306,7 @@ def execute_common(plan: dict, judge: str) -> dict:
             box: Dict[str, repo.RunResult] = {}
 
             def fn() -> None:
-                box["res"] = repo.run_generator(mp, target, sdir, out_dir, cache=False)
+                box["res"] = repo.run_generator(mp, target, run_sdir, out_dir, cache=False)
 
             actor = sim.spawn("gen", fn)
             sim.run()
@@ -297,7 +326,7 @@ def execute_common(plan: dict, judge: str) -> dict:
                 lab = f"{f3['op']}:{errno.errorcode.get(f3.get('errno', 0), f3['fault'])}"
                 stats["fault:" + lab] = stats.get("fault:" + lab, 0) + 1
             for lab in label:
-                if lab.startswith(("state", "benign")):
+                if lab.startswith(("state", "benign", "layout")):
                     stats["fault:" + lab] = stats.get("fault:" + lab, 0) + 1
             if sim_faults and not fired:
                 stats["faults_not_fired"] = stats.get("faults_not_fired", 0) + 1
@@ -322,6 +351,8 @@ def execute_common(plan: dict, judge: str) -> dict:
                     vs.append({"property": "C03", "class": "contract:" + breach.split(":")[0][:50],
                                "detail": f"{model} x {target}, fault {tag}: {breach}"})
                 elif res.rc == 0:
+                    if os.path.islink(out_dir) or not os.path.isdir(out_dir):
+                        files = repo.hash_tree(os.path.realpath(out_dir))
                     same = all(files.get(k) == v for k, v in ref.files.items())
                     if not same:
                         bad = sorted(k for k, v in ref.files.items() if files.get(k) != v)
